@@ -218,6 +218,31 @@ end SMD
 namespace SMD.Wire
 open SMD
 
+def pUnionField : P UnionField
+  | '(' :: cs =>
+    match pStr cs with
+    | some (f, r1) =>
+      match pStr r1 with
+      | some (v, ')' :: r2) => some (⟨f, v⟩, r2)
+      | _ => none
+    | none => none
+  | _ => none
+
+/-- `( (_|<S>) (T|F) [ unionfield* ] )` -/
+def pUnion : P Union
+  | '(' :: cs =>
+    let disc : Option (Option String × List Char) :=
+      match cs with
+      | '_' :: r => some (none, r)
+      | _ => (pStr cs).map fun (d, r) => (some d, r)
+    match disc with
+    | some (d, 'T' :: '[' :: r) => (pMany pUnionField ']' r []).bind fun (fs, r') =>
+        match r' with | ')' :: r'' => some (⟨d, true, fs⟩, r'') | _ => none
+    | some (d, 'F' :: '[' :: r) => (pMany pUnionField ']' r []).bind fun (fs, r') =>
+        match r' with | ')' :: r'' => some (⟨d, false, fs⟩, r'') | _ => none
+    | _ => none
+  | _ => none
+
 mutual
 partial def pAtom : P Atom
   | 'A' :: cs =>
@@ -251,7 +276,12 @@ partial def pAtom : P Atom
             match pMany pField ']' r [] with
             | some (fields, r3) =>
               match pTypeRef r3 with
-              | some (e, r4) => (pStr r4).map fun (rel, r5) => (some (MapT.mk fields [] e rel), r5)
+              | some (e, r4) =>
+                (match pStr r4 with
+                 | some (rel, 'u' :: '[' :: r5) =>
+                   (pMany pUnion ']' r5 []).map fun (us, r6) => (some (MapT.mk fields us e rel), r6)
+                 | some (rel, r5) => some (some (MapT.mk fields [] e rel), r5)
+                 | none => none)
               | none => none
             | none => none
           | _ => none
